@@ -65,7 +65,10 @@ def sanitize_variable_names(
                 sanitized_expr.append(f"`{variable_name}")
             else:
                 next(expr_parts)
-                new_name = sanitize_variable_name(variable_name, env, template=template)
+                new_name = next(
+                    (alias for alias, orig in aliases.items() if orig == variable_name),
+                    None,
+                ) or sanitize_variable_name(variable_name, env, template=template)
                 aliases[new_name] = variable_name
                 sanitized_expr.append(f" {new_name} ")
         else:
